@@ -56,30 +56,31 @@ func main() {
 		Workers:     8,
 		CaseTimeout: 120 * time.Second,
 		Floors: map[string]int64{
-			"sel_evals":                    150000,
-			"sel_perm_checks":              200000,
-			"sel_removal_checks":           200000,
-			"sel_removal_owner_rerouted":   20000,
-			"sel_addition_checks":          100000,
-			"sel_addition_moved_to_new":    10000,
-			"sel_tie_hashes":               150,
-			"sel_boundary_hashes":          20000,
-			"sel_special_hashes":           10000,
-			"sel_model_winner_agrees":      100000,
-			"sel_maps_with_weight_max":     100,
-			"sel_maps_all_perms":           200,
-			"acc_single_ops":               5000,
-			"acc_same_prefix_comparisons":  3000,
-			"acc_cross_instance_same_hash": 500,
-			"acc_cross_function_same_hash": 500,
-			"acc_findmissing_calls":        1500,
-			"acc_findmissing_multi_shard":  500,
-			"acc_findmissing_hostile":      200,
-			"acc_findmissing_failed":       100,
-			"acc_errors_checked":           1500,
-			"acc_error_key_discriminating": 500,
-			"acc_get_midstream_failures":   50,
-			"cfg_routing_comparisons":      1000,
+			"sel_evals":                          200000,
+			"sel_perm_checks":                    1200000,
+			"sel_removal_checks":                 1000000,
+			"sel_removal_owner_rerouted":         250000,
+			"sel_addition_checks":                500000,
+			"sel_addition_moved_to_new":          150000,
+			"sel_tie_hashes":                     100,
+			"sel_boundary_hashes":                70000,
+			"sel_special_hashes":                 12000,
+			"sel_model_winner_agrees":            200000,
+			"sel_maps_with_weight_max":           250,
+			"sel_maps_all_perms":                 400,
+			"acc_single_ops":                     8000,
+			"acc_same_prefix_comparisons":        6000,
+			"acc_permuted_composite_comparisons": 3000,
+			"acc_cross_instance_same_hash":       8000,
+			"acc_cross_function_same_hash":       8000,
+			"acc_findmissing_calls":              3000,
+			"acc_findmissing_multi_shard":        1400,
+			"acc_findmissing_hostile":            900,
+			"acc_findmissing_failed":             400,
+			"acc_errors_checked":                 4000,
+			"acc_error_key_discriminating":       3500,
+			"acc_get_midstream_failures":         700,
+			"cfg_routing_comparisons":            1500,
 		},
 		Assumptions: []string{
 			"shard keys within one map are distinct (the configuration is a map keyed by shard key) and weights are non-zero (the configuration rejects zero)",
